@@ -96,6 +96,27 @@ impl NameCompressor {
         }
     }
 
+    /// Forget the names at or beyond a position in the message.
+    ///
+    /// `len` is a byte offset into the message contents (zero represents the
+    /// first byte after the 12-byte message header). All names the compressor
+    /// remembers that begin at or after it are forgotten, as if they had
+    /// never been inserted. This has to be called when the message is cut
+    /// back to `len` bytes of contents, e.g. because an item could only be
+    /// written partially and was abandoned; `truncate(0)` forgets everything.
+    pub fn truncate(&mut self, len: usize) {
+        for i in 0..32 {
+            if self.len[i] != 0 && self.pos[i] as usize >= len {
+                // Restore the uninitialized state.
+                self.last_use[i] = 0;
+                self.pos[i] = 0;
+                self.len[i] = 0;
+                self.parent[i] = 0;
+                self.hash[i] = 0;
+            }
+        }
+    }
+
     /// Compress a [`RevName`].
     ///
     /// This is a low-level function; use [`BuildInMessage::build_in_message()`] to
